@@ -26,6 +26,30 @@ CHECKS = {
              "DFS exhaustive only up to the stated preemption bound / schedule cap; virtual time.",
         technique="schedule fuzzing + bounded-exhaustive schedule enumeration (controlled scheduler) with history oracle",
     ),
+    "C06": dict(
+        category="fault_enumeration",
+        text="For each generated scenario every failure position found by a dry run (k-th compute call of each "
+             "plugin, k-th chunk read of each loader, k-th chunk write of each saver - synchronous and on a pool "
+             "worker -, consumer abandoning after k chunks) is executed with a token-carrying exception injected "
+             "there (a spread subset in the quick tier, all positions in all_positions / thorough); threaded runs "
+             "under generated schedules of the controlled scheduler. Oracle: caller receives the injected exception, "
+             "no hang (virtual timeout), no deadlock, no surviving thread.",
+        design_ref="DESIGN.md §5 C06, §3",
+        note="Failures are exceptions raised at Python-level call sites (plugin compute, FileSytemBackend._read_chunk, "
+             "FileSaver._save_chunk, strax.save_file); pre-emption at synchronisation points; capacity above the lag.",
+        technique="fault injection at enumerated positions x schedule fuzzing (controlled scheduler), history oracle",
+    ),
+    "C13": dict(
+        category="exploration",
+        text="Consumer parked after k chunks, all other threads run under the controlled scheduler to quiescence; "
+             "source production must stay below a run-length independent bound for N and 2N chunks, eager mailboxes "
+             "never exceed capacity (checked at every scheduler step), lazy senders only advance on real demand "
+             "(checked at every source advance).",
+        design_ref="DESIGN.md §5 C13, §3",
+        note="The bound B is an over-estimate derived from the numbers of mailboxes, subscriptions and threads; "
+             "only its independence of N matters. Exhaust plugins excluded.",
+        technique="schedule fuzzing to quiescence (controlled scheduler) with invariant + metamorphic (N vs 2N) oracle",
+    ),
     "C07": dict(
         category="exploration",
         text="Generated + small-scope exhaustive search of Chunk.split / concatenate / merge / Rechunker against "
